@@ -43,7 +43,7 @@ RULE = ("(proof part) wait-model cases: seeded random graphs of 1-12 deferred ob
         "the instruction table with every operand form its stubs admit, every directive of metacommands.py incl. aliases, all bracket styles, all literal "
         "spellings, strings with escapes, nested .repeat <= 8, 1-60 statements, 1-3 files, include depth <= 3, 9 charsets), fault (1-3 planted faults from a "
         "catalogue of 66 kinds), mut (<= 3 token/character delete/duplicate/swap/replace/insert from a fixed alphabet incl. \"'/<>()^,;:.\\t and non-ASCII "
-        "letters and digits), cyclic (92 self-referential shapes in random context), deep (chains of 300 additive / 30 non-linear definitions in all orders, "
+        "letters and digits), cyclic (84 self-referential or size-depends-on-later-address shapes in random context, 1 in 5 mutated), deep (chains of 300 additive / 30 non-linear definitions in all orders, "
         "30 address-dependent sizes, 8-deep brackets and .repeat). Each text: impl.assemble, then the real main_cli() in process under bare and graphical "
         "report formats with --lst/-o/--implicit-bin/-Wall variants (in-memory files), and for a sample the real CLI in a subprocess. "
         "non-trivial = distinct text (hash of files+charset) that produced >= 1 diagnostic or has >= 3 lines. " + BOUNDS)
